@@ -311,6 +311,9 @@ func (store ItemVarStore) GetDelta(index VariationStoreIndex, coords []Coord) fl
 func (vr VariationRegion) Evaluate(coords []Coord) float32 {
 	v := float32(1)
 	for axis, coord := range coords {
+		if axis >= len(vr.RegionAxes) { // invalid font: the store has less axes than 'fvar'
+			break
+		}
 		factor := vr.RegionAxes[axis].evaluate(coord)
 		v *= factor
 	}
